@@ -26,7 +26,7 @@ theorem cpOffsetsB_append (a b : Batch) : cpOffsetsB (a ++ b) = cpOffsetsB a ++ 
   simp [cpOffsetsB]
 
 theorem cpOffsetsB_cmds (q : List Item) :
-    cpOffsetsB (q.map (fun i => Req.cmd i.cmd i.args)) = [] := by
+    cpOffsetsB (q.map (fun i => Req.cmd i.cmd i.args i.offset)) = [] := by
   induction q with
   | nil => rfl
   | cons i q ih => simp [cpOffsetsB, cpOfReq] at ih ⊢
